@@ -292,7 +292,9 @@ def axes(ctx, col):
             dz = _Fr(res[2])
             env = {"coord_min": (0, 0, 0), "coord_max": (4, 4, zext), "offset": None, "self.resolution": res, "np.inf": 10 ** 9}
             try:
-                ev = VecEval(env, opaque_calls=("RangeSampler",), identity_calls=("_tp3f",))
+                helpers = {m_.name: m_.node for m_ in g.cls.methods.values() if not m_.is_lambda and m_ is not g} if g.cls is not None else {}
+                helpers.update({d_.name: d_.node for d_ in repo.all_defs() if d_.module is g.module and d_.cls is None and d_.parent is None and not d_.is_lambda and d_.name != "_tp3f"})
+                ev = VecEval(env, opaque_calls=("RangeSampler",), identity_calls=("_tp3f",), methods=helpers)
                 ev.run(g.node.body)
             except (_Uns, _Rnd, _Zero) as x:
                 und = f"{type(x).__name__}: {x}"
